@@ -85,9 +85,11 @@
      WIdle    handler_thread under the dispatcher lock: queue.popleft()          -> WPopped
      WPopped  release of the dispatcher lock; task.service() is entered [LServiceStart] -> WSvc0
      WSvc0    423 R requests ([0]); IndexError if empty (escapes to handler_thread: LCrash)
-     WSvc1    431 R connected: True -> task.service(): the application is called [LAppCall]
-              (ErrorTask for an error request: no application call); False -> 434
+     WSvc1    433 `if self.connected and not self.will_close`:  R connected; False -> 439
               close_on_finish := True (mc: the close branch is now forced)
+     WSvc1b   433                                           R will_close; True -> 439 as above;
+              False -> task.service(): the application is called             [LAppCall]
+              (ErrorTask for an error request: no application call)
      WTask    the task runs (432; exception ladder 435-463; keep branch 481-493 before the lock):
               WRdConn   write_soon 348 / 359: R connected; False -> ClientDisconnected -> 437/461 mc
               WFlushErr write_soon 381 / _flush_outbufs_below_high_watermark 401:
@@ -132,8 +134,8 @@
    * handle_close by the I/O thread is one step (its wait for outbuf_lock is not modelled: the
      schedule can delay the step for as long as it likes, which covers the wait).
 
-   GHOST (never read by the program): nreq, nsvc (fresh ids), gdec ("a close decision of a
-   kind covered by C11_partial has been taken"), the flag `late` in a worker's program
+   GHOST (never read by the program): nreq, nsvc (fresh ids), gdec ("a close decision has
+   been taken"), the flag `late` in a worker's program
    counter (value of gdec when service() was entered).  Labels are ghost output. *)
 From Coq Require Import List Arith Bool.
 Import ListNotations.
@@ -152,9 +154,9 @@ Inductive dkind :=
 | DCancelWC      (* cancel(): will_close := True *)
 | DCancelConn.   (* cancel(): connected := False *)
 
-(* decisions for which C11 is proved; the two others are the finding *)
-Definition covered (k : dkind) : bool :=
-  match k with DFlushErrIO | DFlushErrW => false | _ => true end.
+(* decisions for which C11 is proved: all of them (since /repo 64d926d service() reads will_close
+   as well; before it the two _flush_exception kinds were the finding F22) *)
+Definition covered (k : dkind) : bool := true.
 
 Inductive who := ByIO | ByW (w : nat) | BySD.
 
@@ -183,6 +185,7 @@ Inductive wpc :=
 | WPopped
 | WSvc0 (sid : nat) (late : bool)
 | WSvc1 (sid : nat) (late : bool) (r : req)
+| WSvc1b (sid : nat) (late : bool) (r : req)
 | WTask (sid : nat) (mc : bool)
 | WClose1 (sid : nat) | WClose2 (sid : nat) | WClose3 (sid : nat)
 | WKeep1 (sid : nat) | WKeep2 (sid : nat) | WKeep3 (sid : nat) | WKeepAdd (sid : nat)
@@ -424,9 +427,10 @@ Definition step_wk (s : state) (w : nat) (e : wkenv) : option (state * list labe
       | r :: _ => Some (set_wk s w (WSvc1 k lt r), [LServiceReq k (rid r)])
       end
   | WSvc1 k lt r, WNone =>
-      if conn s then
-        Some (set_wk s w (WTask k false), if rerr r then [] else [LAppCall k (rid r)])
-      else Some (set_wk s w (WTask k true), [])
+      if conn s then Some (set_wk s w (WSvc1b k lt r), []) else Some (set_wk s w (WTask k true), [])
+  | WSvc1b k lt r, WNone =>
+      if wc s then Some (set_wk s w (WTask k true), [])
+      else Some (set_wk s w (WTask k false), if rerr r then [] else [LAppCall k (rid r)])
   | WTask k mc, WRdConn =>
       if conn s then Some (s, []) else Some (set_wk s w (WTask k true), [])
   | WTask k mc, WFlushErr => Some (decide (set_wc s true) DFlushErrW, [LDecide DFlushErrW])
